@@ -13,9 +13,11 @@
    WF3 (every unmerged leaf listed at a parent is a non-blank leaf below it; theorems in C02)
    and WF5: every non-blank parent has a member in each of its two subtrees - so a node of a
    committer's path whose copath resolution is empty is blank.
-   NOT proved (validated on the implementation by the library's own joiner / observer
-   validation of every exported tree): parent-hash chains and the unmerged-leaf/parent-hash
-   consistency across adds and removes - see DESIGN.md.  Statements only. *)
+   NOT proved: that parent-hash chains stay valid across adds, removes and path updates.  They
+   are VERIFIED on every sampled exported tree by an implementation of RFC 9420 7.9.2 written
+   from the RFC text in Gallina (Model/TreeHashRFC.v: parent_hash_case, with the original
+   sibling tree hash recomputed from scratch), independent of parent_hash.rs, and additionally
+   by the library's own joiner / observer validation of every exported tree.  Statements only. *)
 From Coq Require Import NArith List.
 From MlsV Require Import Res TreeMathGen TreeMathProofs Tree TreeProofs TreeWF Decap DecapProofs TreeWF5.
 Import ListNotations.
